@@ -10,8 +10,10 @@
                   invert, normalisation) = pair counting with ties one half for every order std::sort may leave equal scores in,
                   independent of batching and element order; SquaredLoss<Sequence,Sequence> (both paths, exception, batch = sum,
                   gradient = derivative, ignored prefix), axiom-free; cross-entropy over R with exp/ln: the coded gradient is the
-                  derivative (Coquelicot is_derive / derivable_pt_lim) of the coded value -- these four theorems use the
-                  standard-library real axioms, classic and functional extensionality (recorded per theorem in the evidence)
+                  derivative (Coquelicot is_derive / derivable_pt_lim) of the coded value, likewise HuberLoss with sqrt -- these five theorems use the
+                  standard-library real axioms, classic and functional extensionality (recorded per theorem in the evidence);
+                  NegativeLogLikelihood = minus the mean log-likelihood / mean parameter derivative for every batching, thread count,
+                  arrival order and every function in the role of log, axiom-free
   correspondence  extracted model (exact Q arithmetic; on real data the float instantiation of the Section-polymorphic
                   cross-entropy (both label encodings), HuberLoss and AbsoluteLoss at 1e-12) vs harness/c06_loss.cpp compiled from
                   /repo on the same case lines: regularizers (G), the 10 loss classes on one batch through batch and
@@ -19,8 +21,9 @@
                   regularised / mini-batch with a LinearModel for thread counts 1,2,3,16 and several partitions (E, W, R, B),
                   ErrorFunction with LinearModel >> LinearModel (bilinear in the parameters; N), ZeroOneLoss weighted eval (Z),
                   NegativeAUC incl. ties, absent classes (NaN), the empty data set (exception), unequal batches, thread counts (A;
-                  exact when both class sizes are powers of two, else 1e-14), SquaredLoss<Sequence,Sequence> with ignored prefix and
-                  fresh / reused gradient objects (S; exact).
+                  exact when both class sizes are powers of two, else 4e-14), SquaredLoss<Sequence,Sequence> with ignored prefix and
+                  fresh / reused gradient objects (S; exact), NegativeLogLikelihood with a one-output LinearModel, several partitions /
+                  thread counts, clamped predictions (P; the model's logarithm parameter is the double logarithm embedded into Q, 1e-12).
                   Exact on dyadic data (the implementation's double must be the model's rational, or its correctly rounded
                   value when a division by a non power of two is involved; Huber's outer branch: 1e-15).
   spec monitors   evaluated on the implementation's output only, on all anchored classes incl. those without Coq model
@@ -343,6 +346,62 @@ def mon_S(line, out):
             what, k, float(g[k]), float(want_g[k]), " (element inside the ignored prefix)" if want_g[k] == 0 else ""))]
     return []
 
+def gen_nll_case(rng):
+    """NegativeLogLikelihood with LinearModel(nin,1,offset): dyadic parameters / inputs (the predictions are exact in double and in Q),
+    mostly positive predictions, sometimes predictions <= 0 (clamped at 1e-100: log(1e-100), coefficient 0); one reference line
+    (one batch, one thread) and several partitions / thread counts of the same data"""
+    nin = rng.choice([1, 2, 3]); n = rng.choice([1, 2, 3, 4, 6, 9])
+    clamp = rng.random() < 0.25
+    w = [dyq(rng, -1, 1, (1, 2, 4)) for _ in range(nin)]; b = dyq(rng, 4, 9, (1, 2)) if not clamp else dyq(rng, -1, 2, (1, 2))
+    ins = [fq(rng.choice([Fraction(rng.randint(-3, 3)), dyq(rng, -2, 2, (2,))])) for _ in range(n * nin)]
+    body = "%s | %s" % (" ".join(map(fq, w + [b])), " ".join(ins))
+    lines = ["P 1 %d | %d | %s" % (nin, n, body)]
+    for _ in range(rng.randint(2, 3)):
+        lines.append("P %d %d | %s | %s" % (rng.choice(THREADS), nin, " ".join(map(str, partition(rng, n))), body))
+    return lines
+
+MINPROB = Fraction(1e-100)
+
+def mon_P(lines, outs):
+    """value = -(1/n) sum log(max(p(x), 1e-100)) from both entry points; derivative = -(1/n) sum c(x) (x, 1), c = 1/p or 0 below 1e-100;
+    the same for every partition and thread count"""
+    bad = []; ref = None
+    for line, out in zip(lines, outs):
+        s = sections(line); hd = s[0]; d = toks(out); nin = int(hd[2])
+        what = "NegativeLogLikelihood(LinearModel(%d,1)) threads=%s batches=%s parameters=%s inputs=%s" % (nin, hd[1], s[1], s[2], s[3])
+        if "v" not in d: bad.append(("P:nll:exception", "%s: %s" % (what, out[:160]))); continue
+        par = [pq(x) for x in s[2]]; xs = [pq(x) for x in s[3]]; n = len(xs) // nin
+        ps = [sum(a * b for a, b in zip(par[:nin], xs[i * nin:(i + 1) * nin])) + par[nin] for i in range(n)]
+        want = -math.fsum(math.log(float(max(p_, MINPROB))) for p_ in ps) / n
+        wg = [Fraction(0)] * (nin + 1)
+        for i, p_ in enumerate(ps):
+            if p_ >= MINPROB:
+                for j in range(nin): wg[j] -= xs[i * nin + j] / p_ / n
+                wg[nin] -= 1 / p_ / n
+        v, dv, g = fh(d["v"]), fh(d["dv"]), fhl(d["g"])
+        sc = max([abs(math.log(float(max(p_, MINPROB)))) for p_ in ps])
+        if not close(v, want, sc, 1e-12): bad.append(("P:nll:value", "%s: eval = %r, -(1/n) sum log(max(p, 1e-100)) = %r" % (what, v, want)))
+        elif not close(dv, v, sc, 1e-13): bad.append(("P:nll:derivative-value", "%s: evalDerivative returns %r, eval returns %r" % (what, dv, v)))
+        elif len(g) != nin + 1 or not vclose(g, [float(x) for x in wg], 1e-12): bad.append(("P:nll:gradient", "%s: derivative %r, -(1/n) sum (1/p(x)) dp/dtheta = %r" % (what, g, [float(x) for x in wg])))
+        elif ref is not None and not (close(v, ref[0], sc, 1e-12) and vclose(g, ref[1], 1e-12)):
+            bad.append(("P:nll:batching-threads-invariance", "%s: value %r derivative %r differ from the one-batch one-thread result %r %r" % (what, v, g, ref[0], ref[1])))
+        if ref is None: ref = (v, g)
+    return bad
+
+def nll_equal(line, mo, io):
+    """model (exact rational arithmetic on the double values of log) vs implementation: 1e-12 relative to the largest |log| term"""
+    dm, di = toks(mo), toks(io)
+    if "MODELEXC" in mo or set(dm) != set(di) or "v" not in dm: return False
+    s = sections(line); nin = int(s[0][2]); par = [pq(x) for x in s[2]]; xs = [pq(x) for x in s[3]]
+    ps = [sum(a * b for a, b in zip(par[:nin], xs[i * nin:(i + 1) * nin])) + par[nin] for i in range(len(xs) // nin)]
+    sc = max([abs(math.log(float(max(p_, MINPROB)))) for p_ in ps] + [1.0])
+    for key in ("v", "dv", "g"):
+        la, lb = [float(x) for x in mql(dm[key])], fhl(di[key])
+        if len(la) != len(lb): return False
+        gs = max([abs(x) for x in la] + [0.0])
+        if not all(close(x, y, sc if key != "g" else gs, 1e-12) for x, y in zip(la, lb)): return False
+    return True
+
 def gen_zw_case(rng):
     n = rng.randint(1, 8); dim = rng.choice([1, 2, 3])
     labs = [str(rng.randint(0, 1) if dim == 1 else rng.randrange(dim)) for _ in range(n)]
@@ -582,7 +641,7 @@ def num_equal(m, x, loose, scale=0.0):
 
 def auc_equal(line, mo, io):
     """NegativeAUC, model (exact rational | nan | EXC) vs implementation: exact when both class sizes are powers of two (then FP/N, TP/P
-    and everything built from them is exact in double); otherwise the divisions round and the sum of at most 21 trapezoids is compared at 1e-14"""
+    and everything built from them is exact in double); otherwise the divisions round and the sum of at most 21 trapezoids is compared at 4e-14"""
     if "EXC" in mo.split()[1:2] or "EXC" in io.split()[1:2]: return mo.split()[1:2] == io.split()[1:2]
     dm, di = toks(mo), toks(io)
     if "a" not in dm or "a" not in di: return False
@@ -594,7 +653,9 @@ def auc_equal(line, mo, io):
     if P & (P - 1) == 0 and N & (N - 1) == 0:
         STATS["auc_exact"] += 1; return Fraction(x) == m
     STATS["auc_rounded"] += 1
-    return abs(Fraction(x) - m) <= Fraction(1, 10 ** 14)
+    # a priori bound: every trapezoid carries an absolute error <= ~4 ulp(1) (two rounded quotients, their difference, the product), at most
+    # 21 trapezoids and as many additions: <= ~105 * 2^-53 = 1.2e-14; compared at 4e-14
+    return abs(Fraction(x) - m) <= Fraction(4, 10 ** 14)
 
 def seq_equal(line, mo, io):
     """SquaredLoss<Sequence,Sequence>, model vs implementation: exact (dyadic data)"""
@@ -652,8 +713,9 @@ def main():
         "modelled not verified: the OpenMP runtime delivers one of the modelled schedules (contiguous batch ranges per thread, critical-region merges in some order); libm exp/log/sqrt; remora expression templates (sum, norm_sqr, max) compute the sums the model writes as folds",
         "cross-entropy (both label encodings), HuberLoss and AbsoluteLoss on real data are compared through the float instantiation of the Section-polymorphic model functions (OCaml IEEE doubles, same libm) at 1e-12 and against a log-sum-exp reference at 1e-9; the theorems about these functions hold over every ordered field with exp/log/sqrt laws (the reals are one), not about IEEE rounding",
         "the chain-rule theorem for any model needs the model contract (C04: weightedParameterDerivative additive over the batch + adjoint identity); it is proved here for LinearModel and LinearModel >> LinearModel and assumed (finite-difference monitor only) for models with non-linear activations",
-        "NegativeAUC: the model sorts with insertion sort, std::sort may order equal scores differently -- C06_auc_sweep_any_sorted_permutation proves the sweep gives the same value for every non-increasing arrangement; the model returns NaN exactly when a class is absent (the C++ computes 0.0/0.0) and the exact rational otherwise; the C++ value is compared exactly when both class sizes are powers of two (all double operations exact) and at 1e-14 absolute otherwise (FP/double(N), TP/double(P) round)",
-        "the four real-number theorems about cross-entropy (is_derive) are about the model's code read over R with exp/ln, not about IEEE doubles; they depend on ClassicalDedekindReals.sig_forall_dec, ClassicalDedekindReals.sig_not_dec, Classical_Prop.classic, FunctionalExtensionality.functional_extensionality_dep",
+        "NegativeAUC: the model sorts with insertion sort, std::sort may order equal scores differently -- C06_auc_sweep_any_sorted_permutation proves the sweep gives the same value for every non-increasing arrangement; the model returns NaN exactly when a class is absent (the C++ computes 0.0/0.0) and the exact rational otherwise; the C++ value is compared exactly when both class sizes are powers of two (all double operations exact) and at 4e-14 absolute otherwise (FP/double(N), TP/double(P) round; a priori error bound 1.2e-14 for at most 21 score groups)",
+        "NegativeLogLikelihood: the Coq model is parametric in the logarithm (the theorems hold for every function); the extracted model is run with lg(q) = the double nearest to q, std log, result read back as a rational, and compared with the C++ at 1e-12 relative to the largest |log| term; only LinearModel(nin,1) is tied, other models enter the theorem through the hypothesis that weightedParameterDerivative is a sum over the batch",
+        "the real-number theorems about cross-entropy and HuberLoss (is_derive) are about the model's code read over R with exp/ln, not about IEEE doubles; they depend on ClassicalDedekindReals.sig_forall_dec, ClassicalDedekindReals.sig_not_dec, Classical_Prop.classic, FunctionalExtensionality.functional_extensionality_dep",
         "finite-difference monitors use central differences with steps 2^-17 and 2^-20 (entries where the two disagree, i.e. kinks, are skipped) at 1e-5 relative"]
     ck.assumptions = [
         "datasets are non-empty (ErrorFunctionImpl divides by the number of batches/elements; zero batches is an integer division by zero in the C++)",
@@ -676,7 +738,7 @@ def main():
     if ck.replay:
         lines = [l for l in open(ck.replay).read().split("\n") if l.strip() and not l.startswith("#")]
         zcases = [[l] for l in lines if l.startswith("Z ")]
-        lines = [l for l in lines if not l.startswith("Z ") and not l.startswith("S ")]
+        lines = [l for l in lines if not l.startswith("Z ") and not l.startswith("S ") and not l.startswith("P ")]
         cases = [lines] if lines else []
     else:
         k = 8 if big else 1
@@ -704,6 +766,7 @@ def main():
                 elif k0 in "EWRB": out.append(gen_ef_case(rng, True))
                 elif k0 == "N": out.append(gen_net2_case(rng))
                 elif k0 == "G": out.append(gen_reg_case(rng))
+                elif k0 == "A": out.append(gen_auc_case(rng))
                 else: out.append(gen_loss_case(rng, False))
         return out
 
@@ -822,8 +885,38 @@ def main():
         ck.oblige("SquaredLoss<Sequence,Sequence> = C06ExtModel.seq_eval / seq_evald exactly; value = evalDerivative value = half squared distance over the counted elements, gradient = derivative (zero on the ignored prefix), fresh and reused gradient objects, on %d cases" % len(scases),
                   sfail == 0 and not sdis, "" if sfail == 0 and not sdis else "%d cases fail the monitor, %d disagree with the model" % (sfail, len(sdis)))
 
+    # ---------------- NegativeLogLikelihood: model C06ExtModel.nll_eval / nll_evald (log = the double logarithm embedded into Q) + spec monitor
+    pcases = []
+    if not ck.replay:
+        pcases = [gen_nll_case(rng) for _ in range(120 * (8 if big else 1))]
+    else:
+        pl = [l for l in open(ck.replay).read().split("\n") if l.startswith("P ")]
+        pcases = [pl] if pl else []
+    po = run_cases(exe, pcases, os.path.join(tmpd, "p_in.txt"), env=OMPENV) if pcases else []
+    pm = run_cases(model, pcases, os.path.join(tmpd, "p_model_in.txt")) if pcases else []
+    pfail = 0; seen = set(); pdis = []
+    for ci, (c, (o, rc, e)) in enumerate(zip(pcases, po)):
+        msgs = [("P:nll:crash", "implementation crashed on `%s`" % c[0])] if rc != 0 or len(o) != len(c) else mon_P(c, o)
+        if not msgs and not (pm[ci][1] == 0 and len(pm[ci][0]) == len(c) and all(nll_equal(l, a, b) for l, a, b in zip(c, pm[ci][0], o))): pdis.append(ci)
+        for key, msg in msgs[:1]:
+            if ck.match_known(key) is None: pfail += 1
+            if key not in seen:
+                seen.add(key)
+                cf = ck.write_replay("p_%s.txt" % key.split(":")[2], "\n".join(c) + "\n")
+                ck.violation(key, {"case_file": cf, "case": c, "implementation_output": o, "model_output": pm[ci][0], "monitor": msg, "replay_cmd": "python3 tools/c06.py --replay %s" % cf},
+                             "spec monitor fails on the implementation: " + msg)
+    if pdis and not pfail:
+        ci = pdis[0]; c = pcases[ci]
+        cf = ck.write_replay("p_corr_%d.txt" % ci, "\n".join(c) + "\n")
+        ck.violation("correspondence", {"case_file": cf, "case": c, "model_output": pm[ci][0], "implementation_output": po[ci][0], "broken": "correspondence C06ExtModel.nll_eval/nll_evald vs /repo",
+                                        "replay_cmd": "python3 tools/c06.py --replay %s" % cf},
+                     "correspondence C06ExtModel.nll_eval/nll_evald vs NegativeLogLikelihood no longer checks (outputs differ on %d cases, first: `%s`: model %s, implementation %s); the spec monitor passes" % (len(pdis), c[0], pm[ci][0], po[ci][0]), no_input=True)
+    if pcases:
+        ck.oblige("NegativeLogLikelihood (LinearModel with one output) = C06ExtModel.nll_eval / nll_evald at 1e-12; value = -(mean log max(p, 1e-100)) from both entry points, derivative = -(mean (1/p) dp/dtheta), invariant under partition and thread count, on %d cases" % len(pcases),
+                  pfail == 0 and not pdis, "" if pfail == 0 and not pdis else "%d cases fail the monitor, %d disagree with the model" % (pfail, len(pdis)))
+
     # ---------------- coverage
-    allc = cases + zcases + scases
+    allc = cases + zcases + scases + pcases
     flat = [l for c in allc for l in c]
     kinds = {}
     for l in flat: kinds[l[0]] = kinds.get(l[0], 0) + 1
@@ -836,7 +929,7 @@ def main():
     ck.cov["distinct_nontrivial"] = len(set(l for l in flat if nontrivial(l)))
     ck.cov["rule"] = ("one evaluation = one case line executed by the harness compiled from /repo (a loss on one batch through 4 entry points, AbstractLoss::eval on a partitioned dataset, "
                       "ErrorFunction eval+evalDerivative in one configuration of loss x model x partition x thread count x weights/regularizer/mini-batch, a regularizer, NegativeAUC, "
-                      "ZeroOneLoss weighted eval, SquaredLoss<Sequence,Sequence> eval+evalDerivative on one batch of sequences); non-trivial = at least two elements (parameters for G); distinct = distinct case lines")
+                      "ZeroOneLoss weighted eval, SquaredLoss<Sequence,Sequence> eval+evalDerivative on one batch of sequences, NegativeLogLikelihood eval+evalDerivative in one partition x thread count); non-trivial = at least two elements (parameters for G); distinct = distinct case lines")
     ck.cov["samples"] = [c[:2] for c in (cases[:1] + cases[len(cases) // 2:len(cases) // 2 + 1] + zcases[:1])]
     ck.cov["traces_validated_against_impl"] = len(cases)
     ck.notes["line_kinds"] = kinds
